@@ -27,16 +27,21 @@ def _work(task):
     from pyvc.run import Item, discharge, model_text
     E = _W['E']
     target, case_idx, trails, timeout_ms, props_name, ground = task
-    out = {'items': [], 'undecided': [], 'paths': 0, 'errors': []}
+    out = {'items': [], 'undecided': [], 'paths': 0, 'errors': [], 'frontier': [], 'case': task[1]}
     try:
         props_mod = importlib.import_module('props.%s' % props_name) if props_name else None
-        res = E.verify(target, only_case=case_idx, initial_worklist=trails, ground=ground)
+        res = E.verify(target, only_case=case_idx, initial_worklist=trails, ground=ground, budget_paths=24,
+                       keep_frontier=True, bfs=True)
         out['paths'] = res.paths
+        out['frontier'] = [list(t) for t in res.frontier]
+        out['case'] = case_idx
         out['undecided'] = list(res.undecided)
         seen_sample = 0
-        for o in res.obligations:
-            it = Item(o.clause, o.kind, o.pc, o.goal, o.func, o.lineno, o.note, dict(o.extra, trail=o.trail, target=target))
-            discharge(it, timeout_ms)
+        from pyvc.run import discharge_all
+        its = [Item(o.clause, o.kind, o.pc, o.goal, o.func, o.lineno, o.note, dict(o.extra, trail=o.trail, target=target))
+               for o in res.obligations]
+        discharge_all(its, timeout_ms)
+        for it in its:
             rec = {'clause': it.clause, 'kind': it.kind, 'func': it.func, 'lineno': it.lineno, 'note': it.note,
                    'result': it.result, 'seconds': it.seconds, 'by': it.by,
                    'extra': dict((k, v) for k, v in it.extra.items()
@@ -77,10 +82,11 @@ def verify_parallel(E, target, timeout_ms, props_name, nproc=None, here=None, gr
         info = info or res
         frontier = res.frontier
         paths += res.paths
-        from pyvc.run import Item, discharge, model_text
-        for o in res.obligations:
-            it = Item(o.clause, o.kind, o.pc, o.goal, o.func, o.lineno, o.note, dict(o.extra, trail=o.trail, target=target))
-            discharge(it, timeout_ms)
+        from pyvc.run import Item, discharge_all
+        its = [Item(o.clause, o.kind, o.pc, o.goal, o.func, o.lineno, o.note, dict(o.extra, trail=o.trail, target=target))
+               for o in res.obligations]
+        discharge_all(its, timeout_ms)
+        for it in its:
             records.append(('local', it))
         undecided += [u for u in res.undecided if 'path budget' not in u[0]]
         if frontier:
@@ -90,11 +96,28 @@ def verify_parallel(E, target, timeout_ms, props_name, nproc=None, here=None, gr
                 tasks.append((target, ci, ch, timeout_ms, props_name, ground))
     if tasks:
         ctx = mp.get_context('spawn')
-        with ctx.Pool(min(nproc, len(tasks)), initializer=_init, initargs=(E.repo.root, here)) as pool:
-            for out in pool.imap_unordered(_work, tasks):
-                paths += out['paths']
-                undecided += out['undecided']
-                errors += out['errors']
-                for rec in out['items']:
-                    records.append(('remote', rec))
+        with ctx.Pool(min(nproc, max(len(tasks), 4)), initializer=_init, initargs=(E.repo.root, here)) as pool:
+            # dynamic scheduling: a task explores at most 30 paths and hands back the rest of its
+            # sub-tree, which is split into new tasks
+            pending = [pool.apply_async(_work, (t,)) for t in tasks]
+            while pending:
+                nxt = []
+                for ar in pending:
+                    if not ar.ready():
+                        nxt.append(ar)
+                        continue
+                    out = ar.get()
+                    paths += out['paths']
+                    undecided += [u for u in out['undecided'] if 'path budget' not in u[0]]
+                    errors += out['errors']
+                    for rec in out['items']:
+                        records.append(('remote', rec))
+                    fr = out.get('frontier') or []
+                    if fr:
+                        k = max(1, min(len(fr), 8))
+                        for ch in [fr[i::k] for i in range(k)]:
+                            nxt.append(pool.apply_async(_work, ((target, out['case'], ch, timeout_ms, props_name, ground),)))
+                pending = nxt
+                if pending:
+                    time.sleep(0.05)
     return info, records, undecided, errors, paths
